@@ -248,6 +248,9 @@ def run(check_factory, prop, tier, runs, nworkers=None, wall_cap=None, hang_cap=
 
     exit_code = 0
     replay_paths = []
+    stale = os.path.join(env.REPLAYS, "%s-%d-all-violations.json" % (prop, seed))
+    if os.path.exists(stale):
+        os.unlink(stale)
     if new_violations:
         # triage aid: every violating run with its signatures (not a replay file)
         os.makedirs(env.REPLAYS, exist_ok=True)
